@@ -411,7 +411,17 @@ def judgePersist (now : Int) (before after : List Event) : String :=
     s!"viol lost={(before.filter (keep now)).length - after.length}"
   else "viol content-or-order"
 
+/-- c20_load_expire_agree, on what the implementation produced from one and the same history under one
+clock: the list left by expireOldEvents and the list brought back by save + loadEvents -/
+def judgeLoadExpire (afterLoad afterExpire : List Event) : String :=
+  if afterLoad == afterExpire then "ok"
+  else s!"viol restart-keeps={afterLoad.length} expiry-keeps={afterExpire.length}"
+
 def judge : List String → String
+  | ["loadexpire", a, b] =>
+    match parseEvs a, parseEvs b with
+    | some a, some b => judgeLoadExpire a b
+    | _, _ => "bad-op"
   | ["persist", now, b, a] =>
     match now.toInt?, parseEvs b, parseEvs a with
     | some now, some b, some a => judgePersist now b a
